@@ -138,6 +138,14 @@ Theorem C16_gro_lossless : forall (canUDP : bool) (offset : N) (bufs : list buf)
 Proof. exact gro_lossless. Qed.
 Print Assumptions C16_gro_lossless.
 
+(* holdsb (what the correspondence check evaluates on every batch; written with the kernel's
+   segments computed once) is the conjunction of the five clauses. *)
+Theorem C16_holdsb_is_the_conjunction : forall inp tw out,
+  holdsb inp tw out = bookkeeping_ok inp tw out && passthrough_ok inp tw out && floweq_ok inp tw out
+                      && udp_order_ok inp tw out && headers_valid_ok tw out.
+Proof. exact holdsb_clauses. Qed.
+Print Assumptions C16_holdsb_is_the_conjunction.
+
 (* Summary: every clause of holdsb except UDP order, as one boolean. *)
 Theorem C16_gro_holds_core : forall (canUDP : bool) (offset : N) (bufs : list buf),
   bytes_ok bufs ->
